@@ -1245,7 +1245,16 @@ func (p *parser) parseBlock(block text.BlockReader, parent ast.Node, pc Context)
 		if lineBreakFlags&(lineBreakHard|lineBreakVisible) == lineBreakHard|lineBreakVisible {
 			text = ast.NewTextSegment(diff)
 		} else {
-			text = ast.NewTextSegment(diff.TrimRightSpace(source))
+			trimmed := diff.TrimRightSpace(source)
+			if trimmed.IsEmpty() {
+				// the trailing spaces may already have been flushed into the previous text
+				// node by a space-triggered inline parser; trim them there too.
+				if last, ok := parent.LastChild().(*ast.Text); ok && last.Segment.Stop == diff.Start &&
+					!last.IsRaw() && !last.SoftLineBreak() && !last.HardLineBreak() {
+					last.Segment = last.Segment.TrimRightSpace(source)
+				}
+			}
+			text = ast.NewTextSegment(trimmed)
 		}
 		text.SetSoftLineBreak(lineBreakFlags&lineBreakSoft != 0)
 		text.SetHardLineBreak(lineBreakFlags&lineBreakHard != 0)
